@@ -663,6 +663,7 @@ class Function(ValueNode):
     def func(self, function_handle):
         self._func = function_handle
         self._stale = True
+        self.notify_parents()
 
     @ValueNode.value.setter
     def value(self, value):
